@@ -389,8 +389,8 @@ Proof.
 Qed.
 
 (** [End] with a result-less frame: all jumps of the frame are patched to the current offset *)
-Lemma end_patch s locs bp' s1 :
-  bpwf s -> c_bp s = JUnknown locs None :: bp' ->
+Lemma end_patch s locs res bp' s1 :
+  bpwf s -> c_bp s = JUnknown locs res :: bp' ->
   s1 = fold_left (fun acc l => back_patch acc l (cur_off s)) locs (set_bp (set_last s None) bp') ->
   c_bp s1 = bp' /\ c_stack s1 = c_stack s /\ c_next s1 = c_next s /\ c_reuse s1 = c_reuse s /\ c_consts s1 = c_consts s
   /\ c_last s1 = None /\ cur_off s1 = cur_off s /\ bpwf s1 /\ ext s s1
